@@ -51,6 +51,11 @@ D5 == [cattrs |-> <<"NestHost", "RuntimeInvisibleTypeAnnotations", "EnclosingMet
                       [attrs |-> <<"Code", "Signature", "Deprecated">>,
                        code |-> <<"StackMapTable", "RuntimeVisibleTypeAnnotations", "LineNumberTable">>, excend |-> FALSE] >>,
        rcs |-> <<>>]
+(* both local variable tables in one Code attribute (in every rotation: either table first): the rows of the two tables *)
+(* describe the same variables and may share entries in a tree (seed C17-11)                                            *)
+D6 == [cattrs |-> <<"SourceFile">>, fields |-> <<>>,
+       methods |-> << [attrs |-> <<"Code">>, code |-> <<"LocalVariableTable", "LocalVariableTypeTable", "LineNumberTable">>, excend |-> FALSE] >>,
+       rcs |-> <<>>]
 
 LenOf(name) ==
     CASE name \in {"Deprecated", "Synthetic"} -> 0
@@ -126,8 +131,8 @@ Dummy == InitState(<<>>, MaskAll, NoDeclines)
 
 Init == stage = "shape" /\ fam = "" /\ descs = <<>> /\ mdesc = MDesc("all", {}) /\ consumer = "" /\ m = Dummy
 
-MaskShapes == IF Tier = 0 THEN {RotDesc(D1, r) : r \in 0..2} \cup {RotDesc(D2, r) : r \in 0..2}
-              ELSE {RotDesc(d, r) : d \in {D1, D2, D4, D5}, r \in 0..2}
+MaskShapes == IF Tier = 0 THEN {RotDesc(D1, r) : r \in 0..2} \cup {RotDesc(D2, r) : r \in 0..2} \cup {RotDesc(D6, r) : r \in 0..1}
+              ELSE {RotDesc(d, r) : d \in {D1, D2, D4, D5, D6}, r \in 0..2}
 ConcatShapes == {D1, RotDesc(D2, 1), D3}
 Streams == IF Tier = 0 THEN {<<a, b>> : a \in ConcatShapes, b \in ConcatShapes} \cup {<<D3, D1, RotDesc(D2, 1)>>, <<D1, D1, D3>>}
            ELSE {<<a, b>> : a \in ConcatShapes, b \in ConcatShapes} \cup {<<a, b, c>> : a \in ConcatShapes, b \in ConcatShapes, c \in ConcatShapes}
